@@ -24,6 +24,9 @@ type Action struct {
 	Signer string                  // cast name of the party the protocol assigns to this action
 	Kind   string                  // message kind, e.g. "CloseLease"
 	Tag    map[string]string       // free-form info for oracles (dseq, gseq, provider, ...)
+	// Do: an environment step that is not a marketplace message (e.g. a parameter change as a passed governance proposal
+	// applies it); executed directly on the state's branch
+	Do func(w *World, st State) TxResult
 }
 
 type Scenario struct {
@@ -153,6 +156,9 @@ func (e *Explorer) record(v Viol, hist []int, last int) (known bool, stop bool) 
 func applyAction(w *World, st State, a Action) (State, TxResult) {
 	if a.Gap > 0 {
 		return st.Next(a.Gap), TxResult{OK: true}
+	}
+	if a.Do != nil {
+		return st, a.Do(w, st)
 	}
 	res := w.Exec(st, a.Msg(w.Cast))
 	return st, res
